@@ -14,7 +14,7 @@ type rcProbe struct {
 	produced  int    // values produced by the resolver so far (value n is the n-th)
 	relCount  [5]int // how often the release function of value n ran
 	resolving int
-	told      [3]int // per reference: the value it was last told (0 = gone / nothing)
+	told      [3]int  // per reference: the value it was last told (0 = gone / nothing)
 	dropped   [3]bool // the holder of reference j has decided to release it
 	target    *ccontainer.CContainer[int]
 	lastRel   func() // the released() callback handed to the latest resolver call
